@@ -172,3 +172,17 @@ def jsonable(x):
     if isinstance(x, (str, int, float, bool)) or x is None:
         return x
     return str(x)
+
+
+class ReplayBudget:
+    """Sequential replays in the parent process are capped: once `n` findings were replayed the remaining
+    solver-level disagreements of the run are only counted (status 'sat-not-replayed' in the evidence)."""
+
+    def __init__(self, n):
+        self.left = n
+
+    def take(self):
+        if self.left <= 0:
+            return False
+        self.left -= 1
+        return True
